@@ -164,8 +164,12 @@ class _Transformer:
         pre = []
         if reductions:
             pre.append(ast.Nonlocal(names=sorted(reductions)))
+        # the iteration body runs inside a one-pass loop so that a `continue` written directly in the prange body
+        # (= "skip the rest of this iteration") stays legal once the body has become a function
+        once = ast.For(target=ast.Name(id="__once", ctx=ast.Store()),
+                       iter=ast.Tuple(elts=[ast.Constant(value=0)], ctx=ast.Load()), body=body or [ast.Pass()], orelse=[])
         # make sure the function is a generator even if the body is empty
-        body = pre + body + [ast.Expr(value=ast.Yield(value=ast.Constant(value=0)))]
+        body = pre + [once, ast.Expr(value=ast.Yield(value=ast.Constant(value=0)))]
         args = ast.arguments(
             posonlyargs=[],
             args=[ast.arg(arg=loop.target.id)] + [ast.arg(arg=n) for n in firstprivate],
